@@ -368,6 +368,9 @@ func (e *BitEval) Eval(v ssa.Value) []Alt {
 		var out []Alt
 		for i, ed := range x.Edges {
 			pred := x.Block().Preds[i]
+			if !e.feasible(pred, x.Block()) {
+				continue
+			}
 			ct := condOfEdge(e.P, pred, x.Block())
 			for _, a := range e.Eval(ed) {
 				na := Alt{V: a.V, Cond: append(append([]string{}, a.Cond...), ct...)}
@@ -724,4 +727,76 @@ func wantBits(spec string) BV {
 		out[len(msb)-1-i] = msb[i]
 	}
 	return out
+}
+
+// feasible reports false when a comparison that must hold on the edge
+// pred->blk is refuted by constant operands under the current bindings.
+func (e *BitEval) feasible(pred, blk *ssa.BasicBlock) bool {
+	facts := factsAt(pred)
+	if f, ok := edgeFact(pred, blk); ok {
+		facts = append(facts, f)
+	}
+	for _, f := range facts {
+		if _, isPhi := f.X.(*ssa.Phi); isPhi {
+			continue
+		}
+		if _, isPhi := f.Y.(*ssa.Phi); isPhi {
+			continue
+		}
+		_, signed, okT := typeWidth(f.X.Type(), e.P.Arch)
+		if !okT {
+			continue
+		}
+		ax, ay := e.Eval(f.X), e.Eval(f.Y)
+		if len(ax) != 1 || len(ay) != 1 || ax[0].V == nil || ay[0].V == nil {
+			continue
+		}
+		kx, okx := ax[0].V.Const()
+		ky, oky := ay[0].V.Const()
+		if !okx || !oky {
+			continue
+		}
+		var holds bool
+		if signed {
+			w := len(ax[0].V)
+			sx, sy := int64(kx<<(64-uint(w)))>>(64-uint(w)), int64(ky<<(64-uint(w)))>>(64-uint(w))
+			switch f.Op {
+			case token.EQL:
+				holds = sx == sy
+			case token.NEQ:
+				holds = sx != sy
+			case token.LSS:
+				holds = sx < sy
+			case token.LEQ:
+				holds = sx <= sy
+			case token.GTR:
+				holds = sx > sy
+			case token.GEQ:
+				holds = sx >= sy
+			default:
+				holds = true
+			}
+		} else {
+			switch f.Op {
+			case token.EQL:
+				holds = kx == ky
+			case token.NEQ:
+				holds = kx != ky
+			case token.LSS:
+				holds = kx < ky
+			case token.LEQ:
+				holds = kx <= ky
+			case token.GTR:
+				holds = kx > ky
+			case token.GEQ:
+				holds = kx >= ky
+			default:
+				holds = true
+			}
+		}
+		if !holds {
+			return false
+		}
+	}
+	return true
 }
